@@ -92,10 +92,50 @@ CALL = st.tuples(st.lists(ARG, max_size=2), st.lists(st.tuples(st.sampled_from([
                                                      unique_by=lambda t: t[0]))
 
 
+def _value(i):
+    """an index into VALUES, or (from 10000 on) a plain int of its own: the many distinct arguments of a 'fill'"""
+    return i if i >= 10000 else _val(VALUES[i])
+
+
+def _expand_fills(ops):
+    """["fill", inst, first, count] stands for `count` calls f(first), f(first + 1), ... with distinct ints"""
+    out = []
+    for op in ops:
+        if op[0] == "fill":
+            out.extend(["call", op[1], [[10000 + op[2] + j], []]] for j in range(op[3]))
+        else:
+            out.append(op)
+    return out
+
+
+BIG_SIZES = [2 ** 63 - 1, 2 ** 31, 2 ** 31 - 1, 1000]
+
+
+@st.composite
+def large_histories(draw, tier):
+    """caches of 500-1100 entries that are filled beyond their bound, and bounds nobody can reach (sys.maxsize):
+    evictions one at a time, statistics and parameters must not depend on the SIZE of the bound"""
+    maxsize = draw(st.sampled_from([511, 512, 513, 600, 1023, 1024, 1025] + BIG_SIZES[:3]))
+    big = maxsize > 2000
+    count = draw(st.integers(3, 40)) if big else maxsize + draw(st.integers(0, 3))
+    ops = [["fill", 0, 0, count], ["info", 0]]
+    late = st.one_of(st.integers(0, 4), st.integers(max(count - 3, 0), count + 2))
+    for _ in range(draw(st.integers(3, 12))):
+        ops.append(draw(st.one_of(
+            late.map(lambda j: ["call", 0, [[10000 + j], []]]),
+            late.map(lambda j: ["call", 0, [[10000 + j], []]]),
+            st.just(["info", 0]),
+            late.map(lambda j: ["discard", 0, [[10000 + j], []]]),
+            st.integers(1, 3).map(lambda k: ["fill", 0, count + 10, k]))))
+    ops.append(["info", 0])
+    return {"kind": "function", "maxsize": maxsize, "typed": draw(st.booleans()), "fn_form": "async",
+            "eq_instances": False, "ops": ops}
+
+
 @st.composite
 def histories(draw, kind, tier):
     # "direct": the function is passed as first argument together with typed (lru_cache(fn, typed=...))
-    maxsize = draw(st.sampled_from(["bare", "cache", "direct", None, -1, 0, 1, 2, 3, 4, 5, 128, 1, 2, 3, 2]))
+    maxsize = draw(st.sampled_from(["bare", "cache", "direct", None, -1, 0, 1, 2, 3, 4, 5, 128, 1, 2, 3, 2] + BIG_SIZES))
     typed = draw(st.booleans()) if maxsize not in ("bare", "cache") else False
     # a small pool of call patterns per history makes hits, evictions and equal-but-not-identical
     # patterns frequent; patterns outside the pool still occur
@@ -477,7 +517,7 @@ def check(case, drive=None):
 
     async def history():
         nonlocal discarded
-        for step, op in enumerate(case["ops"]):
+        for step, op in enumerate(_expand_fills(case["ops"])):
             name, inst = op[0], op[1]
             if name == "switch-loop":
                 if drive is not None:
@@ -492,8 +532,8 @@ def check(case, drive=None):
                 continue
             afn, sfn = afns[inst], sfns[inst]
             if name in ("call", "discard", "sibling"):
-                args = tuple(_val(VALUES[i]) for i in op[2][0])
-                kwargs = {k: _val(VALUES[i]) for k, i in op[2][1]}
+                args = tuple(_value(i) for i in op[2][0])
+                kwargs = {k: _value(i) for k, i in op[2][1]}
                 sig_key = repr((args, sorted(kwargs.items())))
                 eq_key = None
                 try:
@@ -634,8 +674,8 @@ def check_stacked(case):
         for step, op in enumerate(case["ops"]):
             name, level = op[0], op[1]
             if name == "call":
-                args = tuple(_val(VALUES[i]) for i in op[2][0])
-                kwargs = {k: _val(VALUES[i]) for k, i in op[2][1]}
+                args = tuple(_value(i) for i in op[2][0])
+                kwargs = {k: _value(i) for k, i in op[2][1]}
                 try:
                     got = ("return", await alev[level](*args, **kwargs))
                 except Exception as exc:
@@ -676,6 +716,8 @@ def check_stacked(case):
 def shards(tier):
     out = [Shard("stacked", check_stacked, strategy=stacked_histories(tier), n=500, nontrivial=lambda c: False,
                  thorough_mult=25)]
+    out.append(Shard("large-caches", check, strategy=large_histories(tier), n=40, nontrivial=lambda c: True,
+                     thorough_mult=10, fuzz=0))
     for kind in ("function", "method", "classmethod", "staticmethod"):
         for i in range(4):
             out.append(Shard(f"{kind}-{i}", check, strategy=histories(kind, tier), n=600,
